@@ -69,7 +69,8 @@ ModuleOK(u) ==
   /\ \A i \in DOMAIN u.children : Routine(u.children[i])
   /\ \A i \in DOMAIN u.typedefs :
         LET t == u.typedefs[i] IN
-        /\ \A j \in DOMAIN t.binds : t.binds[j][2] \in ChildNames(u)
+        /\ \A j \in DOMAIN t.binds : \E k \in DOMAIN u.children :    \* bound procedures are module subroutines
+               u.children[k].name = t.binds[j][2] /\ u.children[k].kind = "subroutine"
         /\ \A j \in DOMAIN t.generics :
               Range(t.generics[j].targets) \subseteq {t.binds[k][1] : k \in DOMAIN t.binds}
   /\ \A i \in DOMAIN u.interfaces : Range(u.interfaces[i].procs) \subseteq ChildNames(u)
